@@ -661,13 +661,15 @@ fn build_av01_fmp4(config: &FragmentConfig) -> Vec<u8> {
 }
 
 fn build_av1c_fmp4(config: &FragmentConfig) -> Vec<u8> {
-    let mut payload = Vec::new();
-    payload.push(1); // version
-    payload.push(0); // seq_profile, seq_level_idx_0, seq_tier_0, high_bitdepth, twelve_bit, monochrome, chroma_subsampling_x, chroma_subsampling_y, chroma_sample_position, reserved
-    payload.push(0); // initial_presentation_delay_present, reserved
-    if let Some(seq_header) = &config.av1_sequence_header {
-        payload.extend_from_slice(seq_header);
+    let seq_header = config.av1_sequence_header.as_deref().unwrap_or(&[]);
+    // Same record as the progressive muxer writes: marker/version, then the profile, level,
+    // tier and colour fields of the supplied sequence header, then the OBU itself.
+    if let Some(av1_config) = crate::codec::av1::extract_av1_config(seq_header) {
+        return crate::muxer::mp4::build_av1c_box(&av1_config);
     }
+    // Unparseable header: keep the fixed 4-byte part well-formed and attach the bytes as given.
+    let mut payload = vec![0x81, 0, 0, 0];
+    payload.extend_from_slice(seq_header);
     build_box(b"av1C", &payload)
 }
 
